@@ -142,3 +142,22 @@ func TestDebugC13(t *testing.T) {
 	fmt.Println("sig:", v.Sig, "labels:", v.Labels, "excluded:", v.Excluded)
 	fmt.Println(firstLines(v.Msg, 1))
 }
+
+// TestDebugSVG draws $VERIF_DOC (an SVG document) on a recording canvas and prints the events.
+func TestDebugSVG(t *testing.T) {
+	doc := os.Getenv("VERIF_DOC")
+	if doc == "" {
+		t.Skip("no VERIF_DOC")
+	}
+	img, err := wr.ParseSVG(doc, "")
+	if err != nil {
+		fmt.Println("ERR", err)
+		return
+	}
+	rec := wr.NewRecorder()
+	page := rec.AddPage(0, 0, 200, 200)
+	img.Draw(page, 200, 200, wr.NewTextCtx("pango"))
+	for _, e := range rec.Events {
+		fmt.Println(e.String(), e.F, e.CTM)
+	}
+}
